@@ -298,11 +298,63 @@ def rule_api(ctx, F, rule="R6"):
            pb["span"], what="plugin-registration")
 
 
+def _single_return(F, **kw):
+    b = F.one(**kw)
+    ps = [p for p in pse.Engine(F).run(b) if p.outcome == "return"]
+    return b, (ps[0] if len(ps) == 1 else None), ps
+
+
+def _is_insert(e, mapref, key, value_pred):
+    return e["fn"].get("name") == "insert" and "HashMap" in e["callee"] and e["descs"][0] == mapref and \
+        e["descs"][1] == key and value_pred(e["descs"][2])
+
+
+def _boxed(param):
+    return lambda v: v == ("call", "alloc::boxed::Box::<T>::new", (param,))
+
+
+def rule_constructors(ctx, F, rule="R7"):
+    """every way of creating an Animator starts the history the property quantifies over in the same place: enabled,
+    position zero, state None, the given timeline (or none); as_disabled only clears `enabled`; state() reports the state"""
+    R = roles(F)
+    zero = lambda v: pse.is_const(v) and "Duration::ZERO" in str(v[2])
+    none_state = lambda v: pse.unit_variant(v) is not None and pse.unit_variant(v)[1] == "None"
+    for nm, kw, tl_ok in (
+            ("Animator::new", dict(crate="bevy_mina", name="new", impl_self_adt=ANIMATOR),
+             lambda v: v[0] == "agg" and v[3] == "None"),
+            ("Animator::default", dict(crate="bevy_mina", name="default", impl_self_adt=ANIMATOR),
+             lambda v: v[0] == "agg" and v[3] == "None"),
+            ("Animator::with_timeline", dict(crate="bevy_mina", name="with_timeline", impl_self_adt=ANIMATOR),
+             lambda v: v[0] == "agg" and v[3] == "Some" and _boxed(("param", 1))(v[4][0][1]))):
+        b, p, ps = _single_return(F, **kw)
+        ok = p is not None and p.ret[0] == "agg" and p.ret[2] == ANIMATOR
+        if ok:
+            f = dict(p.ret[4])
+            ok = f[R["enabled"]] == pse.mk_bool(True) and zero(f[R["pos"]]) and none_state(f[R["state"]]) and tl_ok(f[R["timeline"]])
+        ctx.ob(rule, nm, ok, "%s must create (enabled, position ZERO, state None, %s); summary %s"
+               % (nm, "the given timeline" if "with" in nm else "no timeline", [show(q.ret)[:200] for q in ps]), b["span"],
+               what="constructor-wrong")
+    b, p, ps = _single_return(F, crate="bevy_mina", name="as_disabled", impl_self_adt=ANIMATOR)
+    from rules import c03
+    ch = c03._changed_fields(p.ret, ("param", 1)) if p is not None else None
+    ctx.ob(rule, "Animator::as_disabled", ch == {R["enabled"]: pse.mk_bool(False)},
+           "as_disabled must clear `enabled` and nothing else; changes %s" % ({k: show(v) for k, v in (ch or {}).items()}),
+           b["span"], what="constructor-wrong")
+    b, p, ps = _single_return(F, crate="bevy_mina", name="state", impl_self_adt=ANIMATOR)
+    ctx.ob(rule, "Animator::state", p is not None and p.ret == ("field", ("deref", ("param", 1)), R["state"]),
+           "state() must report the state field", b["span"], what="getter-wrong")
+    b, p, ps = _single_return(F, crate="bevy_mina", name="new", impl_self_adt=EVENT)
+    ok = p is not None and p.ret[0] == "agg" and sorted(v for _, v in p.ret[4]) == sorted([("param", 1), ("param", 2)]) and \
+        dict(p.ret[4]).get("entity") == ("param", 1)
+    ctx.ob(rule, "AnimationStateChanged::new", ok, "the event carries (entity, state) as given", b["span"], what="constructor-wrong")
+
+
 def check(ctx):
     F = ctx.facts
     tab = build(ctx, F)
     rules(ctx, tab)
     rule_api(ctx, F)
+    rule_constructors(ctx, F)
     ctx.notes.append("not decided: 'equals the timeline at a position at most one frame old while Playing' as a value statement; "
                      "scheduling inside bevy")
     ctx.assumptions += ["bevy Mut<T>/Res<T> deref to the component / resource", "Query::get_mut(entity) yields the entity's component",
